@@ -11,6 +11,7 @@ CONSTANTS
   MaxFc = 1000000
   MaxExp = 1000000
   MaxFull = 1000000
+  MaxDropProto = 1000000
   PCap = 4096
   Eager <- NoEager
   EagerCmd = FALSE
